@@ -186,3 +186,62 @@ end LZ.GenBuf
 
 /-! ### axiom audit (printed on every build) -/
 #print axioms LZ.GenBuf.errVars_distinct
+
+/-! ## shape-independent reasoning about generated code (added for the robustness work)
+
+`okAnd r P` — the computation `r` returns normally with a value satisfying `P`.  A theorem
+`∃ b', f … = Res.ok (b', v) ∧ Q b'` is proved by unfolding `f`, splitting every `if`, and
+showing `okAnd leaf P` for every leaf — no leaf has to be written down. -/
+namespace LZ.GenBuf
+open LZ LZ.Gen
+
+def okAnd {α : Type} (r : Res α) (P : α → Prop) : Prop := ∃ a, r = Res.ok a ∧ P a
+
+theorem okAnd_ok {α : Type} (a : α) (P : α → Prop) : okAnd (Res.ok a) P ↔ P a :=
+  ⟨fun ⟨_, e, h⟩ => by cases e; exact h, fun h => ⟨a, rfl, h⟩⟩
+
+/-- `s[i:j]` with `Int` bounds (any expressions; the side condition is linear arithmetic) -/
+theorem slice_ok_and (s : Slice) (i j : Int) (h : 0 ≤ i ∧ i ≤ j ∧ j ≤ (s.arr.length : Int)) :
+    Slice.slice s i j = Res.ok { arr := s.arr.drop i.toNat, len := j.toNat - i.toNat } := by
+  unfold Slice.slice Slice.cap
+  have : (0 : Int) ≤ i ∧ i ≤ j ∧ j ≤ Int.ofNat s.arr.length := h
+  simp only [this, and_self, if_true]
+
+/-- the slice after `s = s[:copy(s, s[d:])]` -/
+def shifted (s : Slice) (d : Nat) : Slice :=
+  match Slice.slice (Slice.copy s { arr := s.arr.drop d, len := s.len - d }).1 0
+      (Slice.copy s { arr := s.arr.drop d, len := s.len - d }).2 with
+  | Res.ok t => t
+  | _ => s
+
+/-- `s[:copy(s, t)]` where `t` is `s[i:]` (as `slice_ok_and` leaves it) -/
+theorem shift_copy (s : Slice) (h : SWF s) (i : Int) (hi : 0 ≤ i ∧ i ≤ (s.len : Int)) (n : Nat)
+    (hn : n = s.len - i.toNat) :
+    Slice.slice (Slice.copy s { arr := s.arr.drop i.toNat, len := n }).1 0
+      (Slice.copy s { arr := s.arr.drop i.toNat, len := n }).2 = Res.ok (shifted s i.toNat) := by
+  subst hn
+  obtain ⟨hc, s', hs', _⟩ := shift_down s h i.toNat (by omega)
+  unfold shifted
+  rw [hc, hs']
+
+theorem shifted_spec (s : Slice) (h : SWF s) (d : Nat) (hd : d ≤ s.len) :
+    (shifted s d).data = s.data.drop d ∧ (shifted s d).arr.length = s.arr.length ∧
+    (shifted s d).len = s.len - d := by
+  obtain ⟨hc, s', hs', h1, h2, h3⟩ := shift_down s h d hd
+  have : shifted s d = s' := by unfold shifted; rw [hc, hs']
+  rw [this]; exact ⟨h1, h2, h3⟩
+
+theorem shifted_data (s : Slice) (h : SWF s) (d D : Nat) (hd : d ≤ s.len) (e : d = D) :
+    (shifted s d).data = s.data.drop D := e ▸ (shifted_spec s h d hd).1
+
+theorem shifted_cap (s : Slice) (h : SWF s) (d : Nat) (hd : d ≤ s.len) :
+    (shifted s d).arr.length = s.arr.length := (shifted_spec s h d hd).2.1
+
+theorem shifted_swf (s : Slice) (h : SWF s) (d : Nat) (hd : d ≤ s.len) : SWF (shifted s d) := by
+  obtain ⟨_, h2, h3⟩ := shifted_spec s h d hd
+  unfold SWF at *; omega
+
+theorem drop_of_eq_zero {α : Type} (l : List α) (D : Nat) (h : D = 0) : l = l.drop D := by
+  subst h; rfl
+
+end LZ.GenBuf
